@@ -13,6 +13,12 @@ CLAIMED = {
  "C03": ("model_checking", "CrossHair/z3 symbolic execution of the real sweep machinery: _iterate_sweep/_materialize_sequences/_convert_var_specs as units, and generated sweep classes run through the real Pipeline with symbolic sequences, modes and parameter placements",
          "Bounded symbolic check: the whole step list of _iterate_sweep is compared with the documented order for 1..3 variables with symbolic lists (length 1..3, thorough 4), both modes, broadcast on/off; sweep classes produced by derive.parameter_sweep for source/operation/probe are executed through the real Pipeline over 5 expressions with symbolic sequences (config and from_context), symbolic mode/broadcast and symbolic placement of the non-swept parameter; elements, call parameters (computed > node > default), collection type, probe pass-through and every published <var>_values are asserted for all values.",
          "Trusted: CrossHair/z3 models; stubs as C01 (sequence-domain digest stubbed); integer payloads; log ranges and non-integer linear grids are outside (numpy transcendental functions).", "4 C03"),
+ "C04": ("model_checking", "CrossHair/z3 symbolic execution of the real identity code paths under an injective-hash model (hashes/UUIDs/canonical JSON as content-addressed tokens): key-order permutations chosen by symbolic indices, inspect-vs-runtime and run-history comparisons with symbolic values; z3-proved-equivalent expression spellings for +/* reordering",
+         "Bounded symbolic relational check: every identity the framework derives (node UUIDs, pipeline id, semantic id, config id, node semantic ids, sanitised node metadata, sorted required keys, run-space spec id) is shown equal, as a hash pre-image with symbolic leaves, under every insertion order of 10 mappings of the configuration; equal between build_inspection_payload and the pipeline_start record of the real orchestrator; and unchanged across construction, a first and a second run of one Pipeline object and runs of other pipelines. 296 expression pairs one AC move apart (z3: equivalent) must produce identical real identities.",
+         "Trusted: collision-freedom of SHA-256/UUIDv5 and injectivity of canonical JSON (the model's assumptions), CrossHair/z3. Outside: YAML text-level rewrites (PyYAML), fresh process / PYTHONHASHSEED / cwd.", "4 C04"),
+ "C05": ("model_checking", "CrossHair/z3 symbolic execution of the real identity code under the injective-hash model: one obligation per (mutation operator, identity aspect) with symbolic values v1 != v2, plus symbolic NAME strings for sweep variables/parameters",
+         "Bounded symbolic relational check: for 16 single-point mutation operators (processor, node count/order, parameter value at five nesting positions, every part of a sweep definition incl. a symbolic position in a 7-element domain) the solver shows the pre-images of semantic id, config id and the affected node's UUID/semantic id differ for all values; identical nodes get distinct UUIDs; for every variable/parameter NAME of length <= 8 a domain or expression change is visible in the node semantic id.",
+         "Trusted: as C04. Open known finding: the pipeline semantic id ignores the whole sweep definition (glob C05.P1:semantic_id-unchanged:sweep:*).", "4 C05"),
  "C08": ("model_checking", "CrossHair/z3 symbolic execution of the real expand_run_space/_expand_entries against a reference, with list lengths, modes at three levels, select/rename choices and max_runs symbolic; counting itertools.product for the 'without materialising' clause",
          "Bounded symbolic differential check of run-space expansion: run list and order, key union, meta counts, every documented rejection (unequal lengths, duplicates within/across blocks/after rename, missing selected column) and the max-runs error iff size > max_runs with the true size, for all list contents and lengths within the bound; the work done before a max-runs rejection is bounded by a linear budget through a counting product.",
          "Trusted: CrossHair/z3 models; external sources enter as symbolic columns through a stubbed _load_source_file (file parsers outside). Open known finding: in-block product materialised before the cap.", "4 C08"),
